@@ -17,10 +17,12 @@ func init() {
 		Assumptions: []string{
 			"operation alphabet: Set(id,len) with id in {0,1,2,14,15,16,255} x len in {0,1,4,16,17,255,256,300} (value bytes keyed by the operation index) and Del(id) with id in {0,1,2,14,15,255}: 62 operations; all sequences up to depth 3 (quick) / 4 (thorough)",
 			"starting states: fresh header; preset one-byte; preset two-byte; preset legacy 0x1234 (no element yet); decoded from wire: one-byte with 2 elements, two-byte with 2 elements, legacy with one word",
+			"long sequences: all sequences of 6 (quick) / 7 (thorough) calls over the 8-call alphabet {Set(1,1B), Set(2,16B), Set(3,4B), Set(14,2B), Del(1), Del(2), Del(3), Del(14)} from the 7 starting states, and one fill-up run that sets all 14 one-byte ids / 40 two-byte ids and deletes every second one",
 			"the model follows the library's return values (it does not decide which Set calls must be accepted); wrongly accepted values are caught by the wire-survival clause",
 		},
 		Scenarios: []mc.Scenario{
 			{Name: "set-del-sequences", Tiers: "qt", ShardDepth: 2, Run: c05Run},
+			{Name: "long-sequences-small-alphabet", Tiers: "qt", ShardDepth: 3, Run: c05Long},
 		},
 	})
 }
@@ -224,4 +226,94 @@ func c05Oracle(c *mc.Ctx, h *rtp.Header, m *c05Model, hist func() string) {
 			c.Failf("wire-value-differs", "%s: value of id %d accepted by SetExtension (%s) comes back as %s after Marshal/Unmarshal (%s)", hist(), id, hx(m.vals[id]), hx(got), hx(b))
 		}
 	}
+}
+
+type c05LongOp struct {
+	set bool
+	id  uint8
+	n   int
+}
+
+var c05LongOps = []c05LongOp{{true, 1, 1}, {true, 2, 16}, {true, 3, 4}, {true, 14, 2}, {false, 1, 0}, {false, 2, 0}, {false, 3, 0}, {false, 14, 0}}
+
+func c05Long(c *mc.Ctx) {
+	h := &rtp.Header{Version: 2, PayloadType: 96, SequenceNumber: 1, Timestamp: 2, SSRC: 3}
+	m := &c05Model{vals: map[uint8][]byte{}}
+	var trace []string
+	trace = append(trace, c05Start(c, h, m))
+	hist := func() string { return strings.Join(trace, "; ") }
+	if c.Pick(2) == 0 {
+		// fill-up run: many elements, then delete every second one
+		two := h.Extension && h.ExtensionProfile == 0x1000
+		n := 14
+		if two {
+			n = 40
+		}
+		if h.Extension && !two && h.ExtensionProfile != 0xBEDE {
+			return
+		}
+		for i := 1; i <= n; i++ {
+			v := fill(1+i%16, byte(i))
+			if err := h.SetExtension(uint8(i), v); err == nil {
+				m.set(uint8(i), clone(v))
+			}
+			trace = append(trace, fmt.Sprintf("Set(%d,%dB)", i, len(v)))
+		}
+		c05Oracle(c, h, m, hist)
+		for i := 2; i <= n; i += 2 {
+			if err := h.DelExtension(uint8(i)); err == nil {
+				m.del(uint8(i))
+			}
+			trace = append(trace, fmt.Sprintf("Del(%d)", i))
+			c05Oracle(c, h, m, hist)
+		}
+		c.NonTrivial()
+		c.Outcome("fill-up")
+		return
+	}
+	depth := 6
+	if c.Thorough() {
+		depth = 7
+	}
+	accepted := 0
+	for step := 0; step < depth; step++ {
+		op := mc.From(c, c05LongOps)
+		before := c05Snapshot(h)
+		var err error
+		if op.set {
+			val := fill(op.n, byte(step*37)+op.id)
+			err = h.SetExtension(op.id, val)
+			trace = append(trace, fmt.Sprintf("Set(%d,%dB)=%v", op.id, op.n, err != nil))
+			if err == nil {
+				m.set(op.id, clone(val))
+			}
+		} else {
+			err = h.DelExtension(op.id)
+			trace = append(trace, fmt.Sprintf("Del(%d)=%v", op.id, err != nil))
+			if err == nil {
+				if _, ok := m.vals[op.id]; !ok {
+					c.Failf("del-absent-succeeded", "%s: DelExtension(%d) returned nil for an id that is not present", hist(), op.id)
+				}
+				m.del(op.id)
+			}
+		}
+		c.Ops(1)
+		if err != nil {
+			if after := c05Snapshot(h); !before.equal(after) {
+				c.Failf("error-changed-header", "%s: the last call returned an error (%v) but changed the header", hist(), err)
+			}
+		} else {
+			accepted++
+		}
+		if step >= 3 {
+			c05Oracle(c, h, m, hist) // shorter prefixes are covered by the depth-3 scenario
+		}
+	}
+	if c.Verbose() {
+		c.Notef("%s", hist())
+	}
+	if accepted > 0 {
+		c.NonTrivial()
+	}
+	c.Outcome(fmt.Sprintf("long accepted=%d", accepted))
 }
